@@ -51,6 +51,9 @@ func (fr *Frame) resolveCallee(cc *ssa.CallCommon) (*ssa.Function, []*Val, *Val)
 	return nil, args, nil
 }
 
+// CurProp is the property being checked in this run (set by the driver).
+var CurProp string
+
 func calleeName(cc *ssa.CallCommon, callee *ssa.Function) string {
 	if cc.IsInvoke() {
 		recv := cc.Value.Type()
@@ -869,6 +872,11 @@ func (fr *Frame) atCallAsserts(in ssa.Instruction, cc *ssa.CallCommon, args []*V
 			vc.letTypes[ac.Let] = sn
 			continue
 		}
+		// a guard tagged for other properties only is neither checked nor assumed in this run: every
+		// property's check stands on its own clauses (and on the untagged ones, which belong to all)
+		if ac.Kind == "assert" && CurProp != "" && fr.c != nil && !hasStr(fr.c.ClauseProps(ac.Cl), CurProp) {
+			continue
+		}
 		cond := env.evalBool(ac.Cl.E)
 		if ac.Kind == "assume" {
 			fr.assume(cond)
@@ -996,6 +1004,9 @@ func (fr *Frame) afterCall(in ssa.Instruction, cc *ssa.CallCommon, args []*Val, 
 			nh := fr.cur.Derive()
 			nh.Set(vc.ghostVarHeap(gv), vc.term(v))
 			fr.cur = nh
+			continue
+		}
+		if ac.Kind == "assert" && CurProp != "" && fr.c != nil && !hasStr(fr.c.ClauseProps(ac.Cl), CurProp) {
 			continue
 		}
 		cond := env.evalBool(ac.Cl.E)
